@@ -488,6 +488,10 @@ func main() {
 	if err != nil {
 		panic(err)
 	}
+	if os.Getenv("VF_MODE") == "handlers" {
+		mainHandlers(b, out)
+		return
+	}
 	var paths []Path
 	if err := json.Unmarshal(b, &paths); err != nil {
 		panic(err)
@@ -518,6 +522,49 @@ func main() {
 			defer wg.Done()
 			defer func() { <-sem }()
 			res[i] = runPath(st, g, paths[i])
+		}(i)
+	}
+	wg.Wait()
+	ob, _ := json.Marshal(res)
+	os.WriteFile(out, ob, 0o644)
+}
+
+func mainHandlers(b []byte, out string) {
+	var paths []HPath
+	if err := json.Unmarshal(b, &paths); err != nil {
+		panic(err)
+	}
+	h := &holder{arrived: map[string]int{}, gates: map[string]chan struct{}{}}
+	adv := 1
+	if v, err := strconv.Atoi(os.Getenv("VF_ADVMAX")); err == nil && v > 0 {
+		adv = v
+	}
+	settle := 30 * time.Millisecond
+	if v, err := strconv.Atoi(os.Getenv("VF_SETTLE_MS")); err == nil && v > 0 {
+		settle = time.Duration(v) * time.Millisecond
+	}
+	st, err := stack.Start(stack.Options{MutateServer: func(s *proxyserver.Server) {
+		s.HTTP2Server.MaxConcurrentStreams = uint32(adv)
+		s.HTTPServer.Handler = h.wrap(s.HTTPServer.Handler)
+	}})
+	if err != nil {
+		panic(err)
+	}
+	defer st.Close()
+	res := make([]PathObs, len(paths))
+	par, _ := strconv.Atoi(os.Getenv("VF_PAR"))
+	if par == 0 {
+		par = 32
+	}
+	sem := make(chan struct{}, par)
+	var wg sync.WaitGroup
+	for i := range paths {
+		wg.Add(1)
+		sem <- struct{}{}
+		go func(i int) {
+			defer wg.Done()
+			defer func() { <-sem }()
+			res[i] = runHandlersPath(st, h, paths[i], settle)
 		}(i)
 	}
 	wg.Wait()
